@@ -363,7 +363,15 @@ func (s *Sel) checkPostorder(c *Ctx, ruleID string) {
 	var trav *ssa.Function
 	project := p.Named("types", "Project")
 	for _, f := range p.FuncsOfPkg("types") {
-		if !recvIs(f, project) || f.Parent() != nil {
+		if f.Parent() != nil {
+			continue
+		}
+		// a method of *Project, or a package function whose first parameter is the project
+		onProject := recvIs(f, project)
+		if !onProject && len(f.Params) > 0 && isPtrTo(f.Params[0].Type(), project) {
+			onProject = true
+		}
+		if !onProject {
 			continue
 		}
 		selfCall := len(DirectSites(f, CallOfFn("self", f))) > 0
@@ -523,8 +531,12 @@ func (s *Sel) checkPostorder(c *Ctx, ruleID string) {
 				if isRec(in) {
 					args := ArgsOf(CallCommonOf(in))
 					ok := false
-					if len(args) >= 1 {
-						if call, isCall := stripConv(args[0]).(*ssa.Call); isCall {
+					// the argument that carries the names (a []string) - first after the receiver / project
+					for _, a := range args {
+						if _, isSl := a.Type().Underlying().(*types.Slice); !isSl {
+							continue
+						}
+						if call, isCall := stripConv(a).(*ssa.Call); isCall {
 							if sc := call.Call.StaticCallee(); sc != nil && len(FindInstrs(sc, func(x ssa.Instruction) bool { _, isR := x.(*ssa.Range); return isR && PathOf(x.(*ssa.Range).X).LastField() == s.FDependsOn })) > 0 {
 								ok = true
 							}
